@@ -269,8 +269,23 @@ def d5_ports(chk, prog, names, m):
                     v = (c[2] == 1) if c[0] == "eq" else (0 in c[2])
                     hi = v if hi is None else hi
             is_ram = [c[2] for c in r.pc if c[0] == "variant" and ".map[" in c[1]]
-            if hi is None:
+            if hi is None and is_ram and all(k != "Ram" for k in is_ram):
                 hi = False  # ROM page in the high byte's window: never contended
+            if hi is None:
+                # the path did not ask the memory map: it may still decide the class from the address lines alone
+                in4 = cc_decide(r, tm.cmp("eq", tm.binop("and", port, K(0xC000, 16)), K(0x4000, 16)))
+                inc = cc_decide(r, tm.cmp("eq", tm.binop("and", port, K(0xC000, 16)), K(0xC000, 16)))
+                if in4 is True:
+                    hi = True       # 0x4000-0x7FFF: bank 0 (48K) / bank 5 (128K), always contended
+                elif in4 is False and (m == "Sinclair48K" or inc is False):
+                    hi = False      # 48K: everything else is uncontended; 128K: ROM window and bank 2
+                elif m != "Sinclair48K" and in4 is False:
+                    # inc is True or open: the path covers ports of the pageable window
+                    chk.fail(key + "/paged-window", "%s on the %s: the contention class of a port in 0xC000-0xFFFF is taken without consulting the bank paged there (banks 1,3,5,7 are contended, 0,2,4,6 are not)" % (meth, m))
+                    continue
+                else:
+                    chk.undecided_(key + "/class", "path does not decide whether the port's high byte addresses contended memory: %s" % ([c[:3] for c in r.pc],))
+                    continue
             if a0 is None:
                 chk.undecided_(key + "/a0", "path does not decide A0: %s" % (r.pc,))
                 continue
